@@ -108,9 +108,21 @@ func namedOfShort(t types.Type) string {
 
 // neverFails: every return of the (module) callee yields a nil constant for the error-like
 // result at index i. For AsyncMapReduce the error list is nil iff the map function never fails.
+// documentedInfallible: library writers whose documentation states that the returned error is
+// always nil (strings.Builder: "always returns a nil error"; bytes.Buffer: "err is always nil";
+// hash.Hash: "It never returns an error").
+var documentedInfallible = map[string]bool{
+	"(*strings.Builder).WriteString": true, "(*strings.Builder).WriteByte": true, "(*strings.Builder).WriteRune": true, "(*strings.Builder).Write": true,
+	"(*bytes.Buffer).WriteString": true, "(*bytes.Buffer).WriteByte": true, "(*bytes.Buffer).WriteRune": true, "(*bytes.Buffer).Write": true,
+	"hash.Hash.Write": true,
+}
+
 func (r *Run) neverFails(site ssa.CallInstruction, depth int) bool {
 	if depth > 3 {
 		return false
+	}
+	if documentedInfallible[calleeName(site.Common())] {
+		return true
 	}
 	callees := []*ssa.Function{}
 	for _, e := range r.P.CG.Out[site.Parent()] {
